@@ -122,6 +122,74 @@ def discontinuity(obj, x):
     return arr((1,) + tuple(x.shape[1:]), fn)
 
 
+def scalar(v):
+    """R-value of a python number / symbolic float / 0-d array"""
+    return smt.R(v.at_(())) if isinstance(v, SArr) else T(v)
+
+
+def discontinuities(obj, x):
+    """docstring of Discontinuities: the sum of its discontinuities, then the shared normalisation"""
+    parts = [discontinuity(d, x) for d in obj.discontinuity_list]
+    tot = arr((1,) + tuple(x.shape[1:]), lambda i: rsum([smt.R(p.at_(i)) for p in parts]))
+    return normalize(tot, obj.zero_mean, obj.std_one, obj.max_one)
+
+
+def random_discontinuity_fields(obj, key):
+    """docstring of RandomDiscontinuities.gen_one_ic_fn: per axis two uniform draws on [0, L) give the box limits (the
+    smaller is the lower one), the value is uniform on value_range; the key is split 3-ways per axis, the third child
+    is carried on and finally draws the value"""
+    L = obj.domain_extent
+    lows, ups, k = [], [], key
+    for _ in range(obj.num_spatial_dims):
+        ks = ops.key_split(k, 3)
+        l1, l2 = ops.rnd_uniform(ks[0], (), 0.0, L), ops.rnd_uniform(ks[1], (), 0.0, L)
+        lows.append(values.binop("min", l1, l2))
+        ups.append(values.binop("max", l1, l2))
+        k = ks[2]
+    return tuple(lows), tuple(ups), ops.rnd_uniform(k, (), obj.value_range[0], obj.value_range[1])
+
+
+def matrix_inverse(m):
+    """the inverse of a 1x1 / 2x2 / 3x3 matrix: adjugate / determinant"""
+    M = values.const_arr(m)
+    n = M.shape[0]
+    adj, det = ops.adjugate_det([[smt.R(M.at_((i, j))) for j in range(n)] for i in range(n)])
+    rows = [[smt.rdiv(adj[i][j], det) for j in range(n)] for i in range(n)]
+    return arr((n, n), lambda idx: rows[idx[0]][idx[1]])
+
+
+def gaussian_blob(obj, x):
+    """docstring of GaussianBlob: exp(-1/2 (x - p)^T W (x - p)) with W the stored inverse covariance, one channel;
+    1 - that with one_complement"""
+    D = x.shape[0]
+    p, W = values.const_arr(obj.position), values.const_arr(obj._inv_covariance)
+
+    def fn(idx):
+        d = [smt.rsub(smt.R(x.at_((i,) + idx[1:])), smt.R(p.at_((i,)))) for i in range(D)]
+        q = rsum([smt.rmul(smt.rmul(d[i], smt.R(W.at_((i, j)))), d[j]) for i in range(D) for j in range(D)])
+        b = smt.rexp(smt.rmul(Fraction(-1, 2), q))
+        return smt.rsub(1, b) if obj.one_complement else b
+    return arr((1,) + tuple(x.shape[1:]), fn)
+
+
+def gaussian_blobs(obj, x):
+    """docstring of GaussianBlobs: the arithmetic mean of the blobs"""
+    parts = [gaussian_blob(b, x) for b in obj.blob_list]
+    n = len(parts)
+    return arr((1,) + tuple(x.shape[1:]), lambda i: smt.rdiv(rsum([smt.R(p.at_(i)) for p in parts]), n))
+
+
+def random_blob_fields(obj, key):
+    """docstring of RandomGaussianBlobs.gen_blob: position uniform on position_range * L, variances uniform on
+    variance_range * L (per axis), covariance = diag(variances); the key is split in two (position, variance)"""
+    D, L = obj.num_spatial_dims, T(obj.domain_extent)
+    ks = ops.key_split(key, 2)
+    pos = ops.rnd_uniform(ks[0], (D,), smt.rmul(T(obj.position_range[0]), L), smt.rmul(T(obj.position_range[1]), L))
+    var = ops.rnd_uniform(ks[1], (D,), smt.rmul(T(obj.variance_range[0]), L), smt.rmul(T(obj.variance_range[1]), L))
+    cov = arr((D, D), lambda idx: smt.rite(smt.req(idx[0], idx[1]), var.at_((idx[0],)), 0))
+    return pos, cov
+
+
 def sine_waves(obj, x):
     """docstring: sum_j a_j sin(k_j 2 pi x / L + p_j) + offset, then std / max normalisation"""
     L = T(obj.domain_extent)
